@@ -84,11 +84,12 @@ impl PrettyPrint {
         let n_spc = line.to_string().len() + 1;
         let spc = " ".repeat(n_spc);
 
-        // Left align the text
-        let first_non_ws = text
-            .chars()
-            .position(|c| !c.is_whitespace())
-            .unwrap_or(0);
+        // Left align the text. Only what the lexer takes for blank space is cut:
+        // any other character can be the one a diagnostic is about (a no-break
+        // space or a form feed used as indentation is an unexpected token) and
+        // has to stay in the excerpt, above its marker.
+        let is_blank = |c: char| c == ' ' || c == '\t' || c == '\r';
+        let first_non_ws = text.chars().position(|c| !is_blank(c)).unwrap_or(0);
 
         // Arrows pointing the the relevant position
         let end = end + 1;
@@ -107,7 +108,7 @@ impl PrettyPrint {
         base.push_str(&" ".repeat(offset.saturating_sub(base.chars().count())));
         base.push_str(&arrows);
 
-        let aligned = text.trim();
+        let aligned = text.trim_start_matches(is_blank).trim_end();
         format!("{spc} |\n {line} | {aligned}\n{spc} | {base}\n")
     }
 
